@@ -17,11 +17,11 @@ REACH = ["predict_win", "predict_draw", "predict_rank", "phi_major", "phi_major_
 
 def floors(tier):
     q = tier == "quick"
-    return {"win": 30000 if q else 600000, "rank": 30000 if q else 600000, "draw": 8000 if q else 150000}
+    return {"win": 30000 if q else 1800000, "rank": 30000 if q else 1800000, "draw": 8000 if q else 450000}
 
 
 def generate(ctx):
-    n = ctx.budget(12000, 220000)
+    n = ctx.budget(12000, 660000)
     for _ in range(n):
         case, meta = gen_pred_case(ctx.rng)
         yield "p", dict(case=case, meta=meta)
